@@ -436,3 +436,12 @@ def has_fields_attr(v):
 
 def fields_attr(v):
     return list(v._fields)
+
+
+def items_of(x):
+    return list(x) if isinstance(x, (list, tuple)) else []
+
+
+def walk(n):
+    import ast as _a
+    return list(_a.walk(n))
